@@ -11,7 +11,7 @@ ID = 'C08'
 LEVEL = 'exploration'
 RULE = ('(pair sweeps) for each pointer macro (hex.read_hex/read_byte (+_and_inc, +n), write_hex/write_byte (+_and_inc, +n), '
         'zero_ptr, xor_hex_to_ptr/xor_byte_to_ptr, xor_hex_from_ptr/xor_byte_from_ptr, ptr_flip, ptr_flip_dbit, ptr_wflip, '
-        'ptr_wflip_2nd_word, ptr_jump, ptr_inc/dec/add/sub/index; bit.ptr_jump/ptr_flip/ptr_flip_dbit/xor_to_ptr/xor_from_ptr/'
+        'ptr_wflip_2nd_word, ptr_jump, ptr_inc/dec/add/sub/index; ALL 256 stored / written byte values through the byte macros; bit.ptr_jump/ptr_flip/ptr_flip_dbit/xor_to_ptr/xor_from_ptr/'
         'ptr_wflip/ptr_wflip_2nd_word/ptr_inc/ptr_dec) a bench program performs TWO consecutive dereferences through two '
         'pointer variables; the pointers are poked with ALL ordered pairs of cells of a 16-cell buffer that straddles a '
         'power-of-two address (so the cell addresses differ in many bits) x several stored values.  (histories) generated '
@@ -181,8 +181,15 @@ def run_hex_pair(case):
     span = {'read_hex_n': 2, 'read_byte_n': 2, 'write_hex_n': 2, 'write_byte_n': 2, 'xor_hex_to_ptr_n': 2, 'xor_byte_to_ptr_n': 2}
     count = 0
     distinct = 0
-    for vs_i, (cells0, sval, tval) in enumerate(VALUE_SETS if case.get('full', True) else VALUE_SETS[:2]):
-        for i, j in itertools.product(range(B), repeat=2):
+    if case.get('values') == 'all':
+        plan = [(([v] * B if k % 2 == 0 else [(v + 37 * c) & 0xFF for c in range(B)]), v & 15, (v * 7 + 3) & 0xFF if k == 2 else v)
+                for v in range(256) for k in range(3)]
+        pairs = [(3, 3), (7, 8), (12, 2)]
+    else:
+        plan = VALUE_SETS if case.get('full', True) else VALUE_SETS[:2]
+        pairs = list(itertools.product(range(B), repeat=2))
+    for vs_i, (cells0, sval, tval) in enumerate(plan):
+        for i, j in pairs:
             lo = {'ptr_dec': 1, 'ptr_sub': 2}
             hi = {'ptr_inc': 1, 'ptr_add': 3, 'read_hex_and_inc': 0, 'write_hex_and_inc': 0}
             if i < lo.get(opa, 0) or i + span.get(opa, 1) + hi.get(opa, 0) > B or j < lo.get(opb, 0) or j + span.get(opb, 1) + hi.get(opb, 0) > B:
@@ -364,6 +371,12 @@ def enumerations(tier):
                 k += 1
                 if k % nshards == shard:
                     yield dict(hex_pair_case(opa, opb, w), full=(tier != 'quick'))
+        for w in (64, 32):
+            for opa, opb in (('read_byte', 'write_byte'), ('write_byte', 'read_byte'), ('xor_byte_to_ptr', 'xor_byte_from_ptr'), ('zero_ptr', 'read_byte'),
+                             ('read_hex', 'write_hex'), ('xor_hex_to_ptr', 'xor_hex_from_ptr'), ('read_byte_n', 'write_byte_n'), ('ptr_wflip_2nd_word', 'read_byte_and_inc')):
+                k += 1
+                if k % nshards == shard:
+                    yield dict(hex_pair_case(opa, opb, w), values='all')
         for w in (64, 32, 16):
             for opa, opb in BIT_PAIRS:
                 k += 1
